@@ -100,6 +100,10 @@ def run_svd(ctx, case, A, M, eps, preds):
     r = min(m, n)
     k = min(case["k"], r)
     alg = {OMIT: None, "Auto": Auto(), "DenseSVD": DenseSVD(), "Lanczos": Lanczos(max_iters=max(m, n) + 2, tol=1e-13)}[case["alg"]]
+    if alg is not None and case["seed"] % 3 == 0:
+        # the same algorithm object was used before, on a smaller operator
+        ctx.call(svd, cola.ops.Dense(np.array([[2.0, 0.0, 0.0], [0.0, 1.0, 0.0]], dtype=M.dtype)), 1, "LM", alg)
+        preds = dict(preds, alg_object_reused=True)
     out = ctx.call(svd, A, k) if alg is None else ctx.call(svd, A, k, "LM", alg)
     krylov = case["alg"] == "Lanczos"
     preds = dict(preds, k_class="all" if k == r else "partial")
